@@ -17,7 +17,7 @@ def one(sid, prop, tier, vjobs):
         r = subprocess.run(["git", "-C", wt, "apply", os.path.join(sd, "patch.diff")], capture_output=True, text=True)
         if r.returncode != 0:
             return sid, prop, None, "patch does not apply: " + r.stderr[-200:]
-        env = dict(os.environ, VERIF_REPO=wt, VERIF_EVIDENCE_DIR=os.path.join(wt, "evidence"), VERIF_NO_SMOKE="1", VERIF_JOBS=str(vjobs))
+        env = dict(os.environ, VERIF_REPO=wt, VERIF_EVIDENCE_DIR=os.path.join(wt, "evidence"), VERIF_REPLAY_DIR=os.path.join(wt, "replays"), VERIF_NO_SMOKE="1", VERIF_JOBS=str(vjobs))
         r = subprocess.run([os.path.join(V, "check"), prop, "--tier", tier], capture_output=True, text=True, env=env, cwd=V)
         hits = []
         for line in r.stdout.splitlines():
